@@ -480,3 +480,60 @@ class C10MMon(Monitor):
                     w.wit.inc("expiry_record_sell_side")
         else:
             V(not logs, "C10.m_spurious", "records written by an operation that is no book event")
+
+
+# =================================================================================================
+class C06MMon(Monitor):
+    """Market-level half of C06: values recorded for a past time never change; queries for the
+    future are refused (one Market, T-heavy histories, chunk boundaries)."""
+    name = "C06"
+    BULK = ["get_market_prices", "get_mid_prices", "get_last_executed_prices", "get_fundamental_prices",
+            "get_executed_volumes", "get_executed_total_prices", "get_n_buy_orders", "get_n_sell_orders"]
+    SINGLE = ["get_market_price", "get_mid_price", "get_last_executed_price", "get_fundamental_price",
+              "get_executed_volume", "get_executed_total_price", "get_n_buy_order", "get_n_sell_order", "get_vwap"]
+
+    def start(self, w):
+        self.frozen = []  # per past time: tuple of series values frozen when that time was last current
+        self.cur = self._now(w)
+
+    def _now(self, w):
+        m = w.m
+        t = m.time
+        return tuple(getattr(m, g)([t])[0] for g in self.BULK)
+
+    def canon_extra(self, w):
+        return tuple(self.frozen[-2:])
+
+    def on_sub(self, w, sub):
+        if sub.exc is not None:
+            return
+        m = w.m
+        t = m.time
+        if sub.kind == "tick":
+            self.frozen.append(self.cur)
+            V(len(self.frozen) == t, "C06.m_clock", "a clock step did not advance the market's time by exactly one")
+            if t % m.chunk_size == 0:
+                w.wit.inc("tick_across_storage_chunk")
+        self.cur = self._now(w)
+        if t > 0:
+            cols = [getattr(m, g)(range(0, t)) for g in self.BULK]
+            for gi, g in enumerate(self.BULK):
+                for s in range(t):
+                    V(cols[gi][s] == self.frozen[s][gi], "C06.m_history_changed", "a value recorded for a past time changed afterwards",
+                      "%s time %d (now %d): was %r now %r after %s" % (g, s, t, self.frozen[s][gi], cols[gi][s], sub.kind))
+            w.wit.inc("past_values_compared", t * len(self.BULK))
+        if sub.kind in ("tick", "round"):
+            for s in (t + 1, t + 2):
+                for g in self.SINGLE:
+                    try:
+                        val = getattr(m, g)(s)
+                    except Exception:  # noqa
+                        continue
+                    raise Violation("C06.m_future", "a market query for a time later than the current time was answered | %s(%d) at time %d returned %r" % (g, s, t, val))
+                for g in self.BULK:
+                    try:
+                        val = getattr(m, g)([t, s])
+                    except Exception:  # noqa
+                        continue
+                    raise Violation("C06.m_future", "a market query for a time later than the current time was answered | %s([%d,%d]) returned %r" % (g, t, s, val))
+            w.wit.inc("future_queries_refused")
